@@ -12,7 +12,7 @@ use serde_json::Value;
 
 pub const META: PropMeta = PropMeta {
     level: "exploration",
-    rule: "movies with a udta/meta/ilst built by the independent reference encoder: every subset of {title, year, poster, summary} x text / 4-byte binary year x payload lengths {0, short, multi-byte UTF-8, long, 64 KiB} x 0..5 unknown items and unknown atoms inside items and udta x handler 'mdir' or other x ISO (FullBox) or QuickTime style meta x hdlr before/after ilst x meta without ilst x no udta at all, item order shuffled. Oracle: accessors equal the encoded values / None for absent; metamorphic: stripping every unknown item and atom leaves all four answers unchanged. Non-trivial = (>=1 known item together with >=1 unknown item) or an absence case (other handler, no ilst, no udta, item missing). Distinct = hash of the metadata description.",
+    rule: "movies with a udta/meta/ilst built by the independent reference encoder: every subset of {title, year, poster, summary} x text / 4-byte binary year x payload lengths {0, short, multi-byte UTF-8, long, 64 KiB} x 0..5 unknown items and unknown atoms inside items and udta x handler 'mdir' or other x ISO (FullBox) or QuickTime style meta x hdlr before/after ilst x meta without ilst x no udta at all, item order shuffled, every box of the udta subtree with compact or 64-bit header, optionally a decoy meta box directly in moov; every case is also read through a reader derived with read_fragment_header. Oracle: accessors equal the encoded values / None for absent; metamorphic: stripping every unknown item and atom leaves all four answers unchanged. Non-trivial = (>=1 known item together with >=1 unknown item) or an absence case (other handler, no ilst, no udta, item missing). Distinct = hash of the metadata description.",
     assumptions: &["a year item that is neither decimal text nor a 4-byte binary value (binary of another length, non-numeric text) does not encode a year in either of the two forms the statement names: absence is expected", "text payloads are valid UTF-8"],
 };
 
@@ -79,7 +79,7 @@ pub fn oracle(ctx: &mut Ctx, c: &Case) -> Check {
     }
     // metamorphic: strip everything unknown
     let mut stripped = c.movie.clone();
-    let mut had_unknown = false;
+    let mut had_unknown = stripped.moov_meta.take().is_some();
     if let Some(me) = stripped.meta.as_mut() {
         had_unknown |= !me.udta_extra.is_empty();
         me.udta_extra.clear();
@@ -123,6 +123,9 @@ pub fn oracle(ctx: &mut Ctx, c: &Case) -> Check {
         if m.large_seed != 0 {
             ctx.count("64-bit-headers-in-udta-subtree");
         }
+        if c.movie.moov_meta.is_some() {
+            ctx.count("decoy-meta-directly-in-moov");
+        }
     }
     if had_unknown {
         ctx.count("has-unknown-items-or-atoms");
@@ -141,10 +144,14 @@ pub fn oracle(ctx: &mut Ctx, c: &Case) -> Check {
 }
 
 pub fn case_strategy() -> impl Strategy<Value = Case> {
-    (gen::table_movie(1, 3), prop::option::weighted(0.9, gen::meta_strategy())).prop_map(|(mut movie, meta): (Movie, Option<(Meta, MetaExpect)>)| {
+    // decoy: a second meta box (any handler, its own item list) directly in moov, which is not user
+    // data; only generated next to a udta so that the expected answers stay those of udta
+    let decoy = prop::option::weighted(0.25, (gen::meta_strategy(), any::<bool>()));
+    (gen::table_movie(1, 3), prop::option::weighted(0.9, gen::meta_strategy()), decoy).prop_map(|(mut movie, meta, decoy): (Movie, Option<(Meta, MetaExpect)>, Option<((Meta, MetaExpect), bool)>)| {
         match meta {
             Some((m, e)) => {
                 movie.meta = Some(m);
+                movie.moov_meta = decoy.map(|((dm, _), first)| (dm, first));
                 Case { movie, title: e.title, summary: e.summary, year: e.year, poster: e.poster }
             }
             None => Case { movie, title: None, summary: None, year: None, poster: None },
